@@ -124,6 +124,25 @@ inductive Task where
   | wsSend (tr : Nat) (batch : List Pkt)
   deriving Repr, Inhabited
 
+/-- the events of a session, as the application's listeners see them -/
+inductive SEv where
+  | connection (rs : RS) (trName : String) (proto : Nat)
+  | close (reason : String) (rs : RS)
+  | packetCreate (t : PT)
+  | flush (batch : List Pkt)
+  | drain
+  | cb (id : Nat)
+  | upgrading
+  | upgrade
+  | packet (t : PT)
+  | heartbeat
+  | message (m : Option Msg)
+  deriving Repr, Inhabited
+
+def SEv.isClose : SEv → Bool
+  | .close _ _ => true
+  | _ => false
+
 structure World where
   o : Opts := {}
   now : Nat := 0
@@ -134,6 +153,7 @@ structure World where
   registry : List Nat := []
   tasks : List Task := []
   evs : List String := []
+  slog : List (Nat × SEv) := []      -- every session event so far, structured (what the theorems speak about)
   cbSeq : Nat := 0
   fault : Option String := none      -- the process hangs or dies: nothing is observed any more
   deriving Repr, Inhabited
@@ -152,10 +172,6 @@ def World.setConn (w : World) (i : Nat) (f : Conn → Conn) : World := { w with 
 
 def World.ev (w : World) (s : String) : World := { w with evs := w.evs ++ [s!"E:{w.now}:{s}"] }
 
-/-- an event of a session: only visible once the session has been announced -/
-def World.sev (w : World) (sid : Nat) (s : String) : World :=
-  if (w.sock sid).announced then w.ev s!"s{sid}:{s}" else w
-
 def pktChars (ps : List Pkt) : String :=
   if ps.isEmpty then "-" else String.ofList (ps.map fun p => Char.ofNat p.typ.char.toNat)
 
@@ -165,6 +181,27 @@ def hexStr (bs : Bytes) : String :=
   String.ofList (bs.foldr (fun b acc => hexDigitC (b.toNat / 16) :: hexDigitC (b.toNat % 16) :: acc) [])
 
 def kindStr : Kind → String | .text => "t" | .binary => "b"
+
+/-- the token of a session event -/
+def SEv.render : SEv → String
+  | .connection rs trName proto => s!"connection:{rs.name}:{trName}:{proto}"
+  | .close reason rs => s!"close:{reason}:{rs.name}"
+  | .packetCreate t => s!"packetCreate:{t.name}"
+  | .flush batch => s!"flush:{pktChars batch}"
+  | .drain => "drain"
+  | .cb id => s!"cb:{id}"
+  | .upgrading => "upgrading"
+  | .upgrade => "upgrade"
+  | .packet t => s!"packet:{t.name}"
+  | .heartbeat => "heartbeat"
+  | .message (some m) => s!"message:{kindStr m.kind}:{hexStr m.data}"
+  | .message none => "message:t:-"
+
+/-- an event of a session: logged always, printed (visible to the application's
+    listeners) only once the session has been announced -/
+def World.sev (w : World) (sid : Nat) (e : SEv) : World :=
+  let w := { w with slog := w.slog ++ [(sid, e)] }
+  if (w.sock sid).announced then w.ev s!"s{sid}:{e.render}" else w
 
 /-- the 24-character stand-in for the random id of session `k` -/
 def sidBytes (k : Nat) : Bytes :=
@@ -231,6 +268,12 @@ def World.answer (w : World) (r : Nat) (resp : Resp) : World :=
   if (w.reqs.getD r default).resp.isSome then w else
   let w := w.ev s!"req:write:{r}"
   w.setReq r fun q => { q with resp := some resp, done := true }
+
+/-- "aborting ongoing data request": `DoClose` answers a data request still being processed -/
+def abortData (w : World) (d : Option Nat) : World :=
+  match d with
+  | some r => w.answer r { status := 429, ct := "-" }
+  | none => w
 
 /-- `MaybeUpgrade`'s cleanup -/
 def candCleanup (w : World) (sid : Nat) : World :=
@@ -311,9 +354,7 @@ def trCloseF : Nat → World → Nat → Option Nat → World
     let w := w.setTr ti fun t => { t with rs := .closing, closeFn := fn }
     if t.isPolling then
       -- "aborting ongoing data request"
-      let w := match t.dataReq with
-        | some r => w.answer r { status := 429, ct := "-" }
-        | none => w
+      let w := abortData w t.dataReq
       if t.writable then
         let w := trSend w ti [{ typ := .close }]
         pollOnCloseF f (runCloseFnF f w ti) ti
@@ -334,7 +375,7 @@ def clearTransportF : Nat → World → Nat → World
 
 /-- `MaybeUpgrade`'s onError / onTransportClose / onClose: give the candidate up -/
 def candFail : Nat → World → Nat → World
-  | 0, w, _ => w
+  | 0, w, sid => candCleanup w sid
   | f + 1, w, sid =>
     match (w.sock sid).cand with
     | none => w
@@ -344,14 +385,15 @@ def candFail : Nat → World → Nat → World
 def sockOnClose : Nat → World → Nat → String → World
   | 0, w, _, _ => w
   | f + 1, w, sid, reason =>
-    if (w.sock sid).rs = .closed then w else
+    -- (sessions are indices here, pointers in the code: an index that names no session is a no-op)
+    if (w.sock sid).rs = .closed ∨ w.socks.size ≤ sid then w else
     let w := w.setSock sid fun s =>
       { s with rs := .closed, pingIntervalDue := none, pingTimeoutDue := none, packetsFn := [], sentCb := [] }
     let w := clearTransportF f w sid
     -- listeners of the session's "close" event, in registration order:
     -- the server's registry entry, the application, a pending upgrade
     let w := { w with registry := w.registry.filter (· ≠ sid) }
-    let w := w.sev sid s!"close:{reason}:{(w.sock sid).rs.name}"
+    let w := w.sev sid (.close reason (w.sock sid).rs)
     let w := candFail f w sid
     w.setSock sid fun s => { s with wbuf := [] }
 end
@@ -373,10 +415,10 @@ def flushF : Nat → World → Nat → World
     if s.rs = .closed ∨ ¬ (w.tr s.tr).writable ∨ s.wbuf.isEmpty then w else
     let batch := s.wbuf
     let w := w.setSock sid fun s => { s with wbuf := [], sentCb := s.sentCb ++ [s.packetsFn], packetsFn := [] }
-    let w := w.sev sid s!"flush:{pktChars batch}"
+    let w := w.sev sid (.flush batch)
     let w := w.ev s!"srv:flush:s{sid}:{pktChars batch}"
     let w := trSend w s.tr batch
-    let w := w.sev sid "drain"
+    let w := w.sev sid .drain
     -- Close(false) left a once-listener on "drain"
     let w := match (w.sock sid).drainClose with
       | some discard => closeTransportF f (w.setSock sid fun s => { s with drainClose := none }) sid discard
@@ -399,7 +441,7 @@ def closeTransport (w : World) (sid : Nat) (discard : Bool) : World := closeTran
 def sendPacket (w : World) (sid : Nat) (p : Pkt) (cb : Option Nat) : World :=
   let s := w.sock sid
   if s.rs = .closing ∨ s.rs = .closed then w else
-  let w := w.sev sid s!"packetCreate:{p.typ.name}"
+  let w := w.sev sid (.packetCreate p.typ)
   let w := w.setSock sid fun s =>
     { s with wbuf := s.wbuf ++ [p], packetsFn := match cb with | some id => s.packetsFn ++ [id] | none => s.packetsFn }
   flush w sid
@@ -410,7 +452,7 @@ def sockOnDrain (w : World) (sid : Nat) : World :=
   | [] => w
   | cbs :: rest =>
     let w := w.setSock sid fun s => { s with sentCb := rest }
-    cbs.foldl (fun w id => w.sev sid s!"cb:{id}") w
+    cbs.foldl (fun w id => w.sev sid (.cb id)) w
 
 /-- a transport's "drain" event -/
 def trEmitDrain (w : World) (ti : Nat) : World :=
@@ -428,6 +470,10 @@ def trEmitReady (w : World) (ti : Nat) : World :=
 
 def probeBytes : Bytes := "probe".toUTF8.toList
 
+/-- the probe ping a candidate opens with -/
+def isProbe (p : Pkt) : Bool :=
+  p.typ == .ping && (match p.data with | some m => m.data == probeBytes | none => false)
+
 /-- `socket.setTransport` after an upgrade, and the rest of the UPGRADE branch -/
 def doUpgrade (w : World) (sid : Nat) (newTr : Nat) : World :=
   let w := candCleanup w sid
@@ -437,7 +483,7 @@ def doUpgrade (w : World) (sid : Nat) (newTr : Nat) : World :=
   let w := clearTransport w sid
   let w := w.setSock sid fun s => { s with tr := newTr }
   let w := w.setTr newTr fun t => { t with role := .current sid }
-  let w := w.sev sid "upgrade"
+  let w := w.sev sid .upgrade
   let w := flush w sid
   if (w.sock sid).rs = .closing then trClose w newTr (some sid) else w
 
@@ -446,10 +492,9 @@ def candOnPacket (w : World) (sid : Nat) (p : Pkt) : World :=
   match (w.sock sid).cand with
   | none => w
   | some c =>
-    let isProbe : Bool := p.typ == .ping && (match p.data with | some m => m.data == probeBytes | none => false)
-    if isProbe then
+    if isProbe p then
       let w := trSend w c.tr [{ typ := .pong, data := some ⟨.text, probeBytes⟩ }]
-      let w := w.sev sid "upgrading"
+      let w := w.sev sid .upgrading
       w.setSock sid fun s => { s with cand := some { c with checkDue := some (w.now + checkPeriod) } }
     else if p.typ = .upgrade ∧ (w.sock sid).rs ≠ .closed then doUpgrade w sid c.tr
     else trClose (candCleanup w sid) c.tr none
@@ -458,22 +503,20 @@ def candOnPacket (w : World) (sid : Nat) (p : Pkt) : World :=
 def sockOnPacket (w : World) (sid : Nat) (p : Pkt) : World :=
   let s := w.sock sid
   if s.rs ≠ .open_ then w else
-  let w := w.sev sid s!"packet:{p.typ.name}"
+  let w := w.sev sid (.packet p.typ)
   match p.typ with
   | .ping =>
     if s.proto ≠ 3 then sockOnClose closeFuel w sid "transport_error" else
     let w := w.setSock sid fun s => { s with pingTimeoutDue := some (w.now + w.o.I + w.o.T) }
     let w := sendPacket w sid { typ := .pong, compress := true } none
-    w.sev sid "heartbeat"
+    w.sev sid .heartbeat
   | .pong =>
     if s.proto = 3 then sockOnClose closeFuel w sid "transport_error" else
     let w := w.setSock sid fun s => { s with pingTimeoutDue := none, pingIntervalDue := some (w.now + w.o.I) }
-    w.sev sid "heartbeat"
+    w.sev sid .heartbeat
   | .error => sockOnClose closeFuel w sid "parse_error"
   | .message =>
-    match p.data with
-    | some m => w.sev sid s!"message:{kindStr m.kind}:{hexStr m.data}"
-    | none => w.sev sid "message:t:-"
+    w.sev sid (.message p.data)
   | _ => w
 
 /-- a transport's "packet" event -/
@@ -500,11 +543,11 @@ def emitHeaders (w : World) (ti : Nat) (r : Nat) : World :=
 def runPollSend (w : World) (ti : Nat) (batch : List Pkt) : World :=
   let t := w.tr ti
   -- a buffered orderly close rides on this payload
-  let (w, batch) :=
-    if t.shouldClose then
-      let w := w.setTr ti fun t => { t with shouldClose := false, closeTimerDue := none }
-      (pollOnClose (runCloseFn w ti) ti, batch ++ [{ typ := .close }])
-    else (w, batch)
+  let closing := t.shouldClose
+  let w := if closing then
+      pollOnClose (runCloseFn (w.setTr ti fun t => { t with shouldClose := false, closeTimerDue := none }) ti) ti
+    else w
+  let batch := if closing then batch ++ [{ typ := .close }] else batch
   let t := w.tr ti
   let payload := encodePayload t batch
   match t.req with
@@ -523,26 +566,27 @@ def runPollSend (w : World) (ti : Nat) (batch : List Pkt) : World :=
                           ce := if coding = "" then "-" else coding, body := body }
     trEmitDrain w ti
 
-/-- one write on a WebSocket connection; a failed write raises the transport's error -/
-def wsWrite (w : World) (ti : Nat) (m : Msg) : World × Bool :=
-  let c := (w.tr ti).conn
-  let cn := w.conns.getD c default
-  if cn.serverOpen ∧ cn.clientOpen then
-    (w.setConn c fun x => { x with frames := x.frames ++ [m] }, true)
-  else (w, false)
+/-- can the server write on the connection of transport `ti`? a failed write raises the transport's error -/
+def wsCanWrite (w : World) (ti : Nat) : Bool :=
+  let cn := w.conns.getD (w.tr ti).conn default
+  cn.serverOpen && cn.clientOpen
+
+/-- one frame written on the connection of transport `ti` -/
+def wsPut (w : World) (ti : Nat) (m : Msg) : World :=
+  w.setConn (w.tr ti).conn fun x => { x with frames := x.frames ++ [m] }
+
+/-- the frames of a batch, one write each -/
+def wsSendLoop (ti : Nat) : List Pkt → World → World
+  | [], w => w
+  | p :: rest, w =>
+    let frame : Msg := match p.pre with
+      | some pre => pre
+      | none => encodePacket (w.tr ti) p
+    if wsCanWrite w ti then wsSendLoop ti rest (wsPut w ti frame) else wsSendLoop ti rest (trOnError w ti)
 
 /-- the writer goroutine of the websocket transport -/
 def runWsSend (w : World) (ti : Nat) (batch : List Pkt) : World :=
-  let rec go : List Pkt → World → World
-    | [], w => w
-    | p :: rest, w =>
-      let t := w.tr ti
-      let frame : Msg := match p.pre with
-        | some pre => pre
-        | none => encodePacket t p
-      let (w, ok) := wsWrite w ti frame
-      if ok then go rest w else go rest (trOnError w ti)
-  let w := go batch w
+  let w := wsSendLoop ti batch w
   let w := trEmitDrain w ti
   let w := w.setTr ti fun t => { t with writable := true }
   trEmitReady w ti
@@ -570,6 +614,21 @@ def jsonOpen (w : World) (sid : Nat) (trName : String) : Bytes :=
   (s!"\{\"maxPayload\":{w.o.maxPayload},\"pingInterval\":{w.o.I},\"pingTimeout\":{w.o.T},\"sid\":\"").toUTF8.toList
     ++ sidBytes sid ++ ("\",\"upgrades\":" ++ upsJ ++ "}").toUTF8.toList
 
+/-- `onOpen`: the open packet, then the configured initial packet -/
+def openPackets (w : World) (sid : Nat) (trName : String) : World :=
+  let w := sendPacket w sid { typ := .open, data := some ⟨.text, jsonOpen w sid trName⟩, compress := true } none
+  match w.o.initial with
+  | some d => sendPacket w sid { typ := .message, data := some ⟨.text, d⟩, compress := true } none
+  | none => w
+
+/-- the heartbeat timer, the registry entry, the "connection" event -/
+def openAnnounce (w : World) (sid : Nat) (trName : String) (proto : Nat) : World :=
+  let w := w.setSock sid fun s =>
+    if proto = 3 then { s with pingTimeoutDue := some (w.now + w.o.I + w.o.T) }
+    else { s with pingIntervalDue := some (w.now + w.o.I) }
+  let w := ({ w with registry := w.registry ++ [sid] } : World).setSock sid fun s => { s with announced := true }
+  w.sev sid (.connection (w.sock sid).rs trName proto)
+
 /-- `NewSocket` … `onOpen`, registry, "connection" -/
 def openSession (w : World) (ti : Nat) (proto : Nat) : World :=
   let sid := w.socks.size
@@ -577,16 +636,7 @@ def openSession (w : World) (ti : Nat) (proto : Nat) : World :=
   let w := { w with socks := w.socks.push { proto, tr := ti } }
   let w := w.setTr ti fun t => { t with role := .current sid, owner := sid }
   let w := w.setSock sid fun s => { s with rs := .open_ }
-  let w := sendPacket w sid { typ := .open, data := some ⟨.text, jsonOpen w sid trName⟩, compress := true } none
-  let w := match w.o.initial with
-    | some d => sendPacket w sid { typ := .message, data := some ⟨.text, d⟩, compress := true } none
-    | none => w
-  let w := w.setSock sid fun s =>
-    if proto = 3 then { s with pingTimeoutDue := some (w.now + w.o.I + w.o.T) }
-    else { s with pingIntervalDue := some (w.now + w.o.I) }
-  let w := { w with registry := w.registry ++ [sid] }
-  let w := w.setSock sid fun s => { s with announced := true }
-  w.ev s!"s{sid}:connection:{(w.sock sid).rs.name}:{trName}:{proto}"
+  openAnnounce (openPackets w sid trName) sid trName proto
 
 def jsonErr (code : Nat) (msg : String) : Bytes :=
   (s!"\{\"code\":{code},\"message\":\"{msg}\"}").toUTF8.toList
@@ -643,20 +693,23 @@ def pollReq (w : World) (sid : Nat) (ae : Bytes) : World :=
   | some s =>
     if ¬ (w.tr s.tr).isPolling then rejectReq w r 3 "Bad request" else onPollRequest w s.tr r
 
+/-- what the parser makes of a request body -/
+def pollDecode (t : Tr) (body : Bytes) (binary : Bool) : Decoded :=
+  if t.proto = 4 then .ok (decodePayloadV4 body)
+  else if binary then decodePayloadV3Binary (body.length + 1) body []
+  else .ok (decodePayloadV3Text (body.length + 1) body)
+
+/-- the packets of a payload, in order; a close packet ends the processing -/
+def pollDeliver (ti : Nat) : List Pkt → World → World
+  | [], w => w
+  | p :: rest, w =>
+    if p.typ = .close then pollOnClose w ti
+    else pollDeliver ti rest (trEmitPacket w ti p)
+
 /-- `polling.OnData` / `jsonp.OnData`; `false` when the decoder panicked -/
 def pollOnData (w : World) (ti : Nat) (body : Bytes) (binary : Bool) : World × Bool :=
-  let t := w.tr ti
-  let dec : Decoded :=
-    if t.proto = 4 then .ok (decodePayloadV4 body)
-    else if binary then decodePayloadV3Binary (body.length + 1) body []
-    else .ok (decodePayloadV3Text (body.length + 1) body)
-  let rec go : List Pkt → World → World
-    | [], w => w
-    | p :: rest, w =>
-      if p.typ = .close then pollOnClose w ti
-      else go rest (trEmitPacket w ti p)
-  match dec with
-  | .ok pkts => (go pkts w, true)
+  match pollDecode (w.tr ti) body binary with
+  | .ok pkts => (pollDeliver ti pkts w, true)
   | .panic => (w, false)
   | .spin => ({ w with fault := some "hang" }, true)
 
@@ -679,11 +732,12 @@ def postReq (w : World) (sid : Nat) (binary declared : Bool) (body : Bytes) (via
       let w := w.setReq r fun q => { q with consumed := some readN }
       if readN > w.o.maxPayload then w.answer r { status := 413, ct := "-" } else
       let w := w.setTr ti fun t => { t with dataReq := some r }
-      let (w, ok) := if viaJsonp then
-          match formFieldD body with
-          | some d => pollOnData w ti (jsonpUnescape d) binary
-          | none => (w, true)
-        else pollOnData w ti body binary
+      let data : Option Bytes := if viaJsonp then (formFieldD body).map jsonpUnescape else some body
+      let res : World × Bool := match data with
+        | some d => pollOnData w ti d binary
+        | none => (w, true)
+      let w := res.1
+      let ok := res.2
       let w := w.setTr ti fun t => { t with dataReq := none }
       if ¬ ok then
         -- the handler goroutine died: net/http drops the connection, the request's
@@ -833,7 +887,63 @@ def advance : Nat → World → Nat → World
 
 /-- the application sends a message -/
 def appSend (w : World) (sid : Nat) (m : Msg) (compress : Bool) (wantCb : Bool) (pre : Option Msg) : World :=
-  let (w, cb) := if wantCb then ({ w with cbSeq := w.cbSeq + 1 }, some (w.cbSeq + 1)) else (w, none)
+  let cb := if wantCb then some (w.cbSeq + 1) else none
+  let w := if wantCb then { w with cbSeq := w.cbSeq + 1 } else w
   sendPacket w sid { typ := .message, data := some m, compress, pre } cb
+
+/-! ### operations -/
+
+/-- what the observer has seen is marked as reported; the printed event list and
+    the delivered frames are consumed -/
+def observe (w : World) : World :=
+  let w := { w with evs := [] }
+  let w := (List.range w.reqs.size).foldl (fun (w : World) i =>
+    let q := w.reqs.getD i default
+    if (q.panicked ∧ !q.reported) ∨ q.resp.isSome then w.setReq i fun q => { q with reported := true } else w) w
+  (List.range w.conns.size).foldl (fun (w : World) i =>
+    w.setConn i fun c => { c with frames := [], endReported := c.ended.isSome }) w
+
+inductive Op where
+  | hsPolling (proto : Nat) (b64 : Bool) (j : Option Bytes)
+  | hsWebsocket (proto : Nat) (b64 : Bool)
+  | poll (sid : Nat) (ae : Bytes)
+  | post (sid : Nat) (binary declared : Bool) (body : Bytes) (viaJsonp : Bool)
+  | abort (r : Nat)
+  | wsCandidate (sid : Nat) (proto : Nat) (b64 : Bool)
+  | frame (c : Nat) (m : Msg)
+  | drop (c : Nat)
+  | send (sid : Nat) (m : Msg) (compress wantCb : Bool) (pre : Option Msg)
+  | close (sid : Nat) (discard : Bool)
+  | shutdown
+  | adv (d : Nat)
+  | settle
+  | observe
+  deriving Repr, Inhabited
+
+/-- one operation of a client, the application or the clock -/
+def step (w : World) (op : Op) : World :=
+  if w.fault.isSome then w else
+  match op with
+  | .hsPolling proto b64 j => hsPolling w proto b64 j
+  | .hsWebsocket proto b64 => hsWebsocket w proto b64
+  | .poll sid ae => pollReq w sid ae
+  | .post sid binary declared body viaJsonp => postReq w sid binary declared body viaJsonp
+  | .abort r => abortReq w r
+  | .wsCandidate sid proto b64 => wsCandidate w sid proto b64
+  | .frame c m =>
+    let cn := w.conns.getD c default
+    if (match cn.ended with | some how => how.startsWith "refused" | none => false) then w
+    else (wsFrame w c m).1
+  | .drop c => wsDrop w c
+  | .send sid m compress wantCb pre => appSend w sid m compress wantCb pre
+  | .close sid discard => appClose w sid discard
+  | .shutdown => shutdown w
+  | .adv d => advance (d * 4 + 64) w (w.now + d)
+  | .settle => settle 10000 w
+  | .observe => observe w
+
+def init (o : Opts) : World := { o }
+
+def run (o : Opts) (ops : List Op) : World := ops.foldl step (init o)
 
 end EIO.Ses
